@@ -1,6 +1,7 @@
 package wire
 
 import (
+	"fmt"
 	uuid "github.com/google/uuid"
 	"context"
 	"time"
@@ -987,5 +988,66 @@ func zzC15eFloodDoesNotStarvePongs() {
 	}
 	_ = pongsSeen
 	vf.Assert("keepalive-kept-pinging", pings >= 3)
+	vf.Reach("end")
+}
+
+// C06.g: a request whose write fails does not give its id back: ids stay distinct from every id used
+// on the connection, also when another caller drew the next id while the failing write was under
+// way; the caller in flight keeps its reply slot and gets its own response, and so does the next one.
+func zzC06gFailedWriteKeepsIdsUnique() {
+	tr := ZZNewFakeTransport()
+	c := ZZNewClientConn(tr, nil)
+	vf.Deviations(zzWireDeviations)
+	go c.readRequestLoop()
+	ctx := context.Background()
+	inWrite := make(chan struct{}, 1)
+	goOn := make(chan struct{})
+	failErr := fmt.Errorf("encode: unsupported value")
+	var ids []uint32
+	tr.OnWrite = func(m message.Message) error {
+		r, ok := m.(message.Request)
+		if !ok {
+			return nil
+		}
+		ids = append(ids, r.GetRequestID())
+		if _, isMeta := m.(*message.UpstreamMetadata); isMeta {
+			inWrite <- struct{}{}
+			<-goOn
+			return failErr // the write of A fails (the connection itself stays up)
+		}
+		return nil
+	}
+	var errA, errB, errC error
+	var respB *message.UpstreamOpenResponse
+	var respC *message.UpstreamCloseResponse
+	doneA, doneB, doneC := false, false, false
+	go func() { _, errA = c.SendUpstreamMetadata(ctx, &message.UpstreamMetadata{Metadata: &message.BaseTime{Name: "n"}}); doneA = true }()
+	vf.Settle()
+	held := false
+	select {
+	case <-inWrite:
+		held = true
+	default:
+	}
+	vf.Assume(held)
+	go func() { respB, errB = c.SendUpstreamOpenRequest(ctx, &message.UpstreamOpenRequest{SessionID: "s", QoS: message.QoSReliable}); doneB = true }()
+	vf.Settle()
+	vf.Assert("second-request-in-flight", !doneB && len(ids) == 2)
+	close(goOn)
+	vf.Settle()
+	vf.Assert("failed-write-is-an-error-for-its-caller-only", doneA && errA != nil && !doneB)
+	go func() { respC, errC = c.SendUpstreamCloseRequest(ctx, &message.UpstreamCloseRequest{StreamID: uuid.UUID{1}}); doneC = true }()
+	vf.Settle()
+	vf.Assert("three-ids-drawn", len(ids) == 3)
+	if len(ids) != 3 {
+		return
+	}
+	vf.Assert("request-ids-pairwise-distinct-and-even", ids[0] != ids[1] && ids[0] != ids[2] && ids[1] != ids[2] && ids[0]%2 == 0 && ids[1]%2 == 0 && ids[2]%2 == 0)
+	// the broker answers the two requests that reached it, each under its id
+	c.msgRequestCh <- &message.UpstreamCloseResponse{RequestID: message.RequestID(ids[2])}
+	c.msgRequestCh <- &message.UpstreamOpenResponse{RequestID: message.RequestID(ids[1]), AssignedStreamID: uuid.UUID{1}, AssignedStreamIDAlias: 5}
+	vf.Settle()
+	vf.Assert("each-caller-gets-the-response-bearing-its-own-id", doneB && doneC && errB == nil && errC == nil && respB != nil && respC != nil &&
+		uint32(respB.RequestID) == ids[1] && uint32(respC.RequestID) == ids[2])
 	vf.Reach("end")
 }
